@@ -1,3 +1,147 @@
+import QmiModel.Model.Interbus
+import QmiModel.Model.Apt
+import QmiModel.Model.T2
+import QmiModel.Gen.Layouts
 import Drv.Common
-/-! stub driver for C15 part B: replaced when the model is built -/
-def main : IO Unit := Drv.main' (fun (s : Unit) _ => (s, "bad-op")) ()
+/-!
+Line-protocol driver for C15 part B (Interbus, APT, T2).  One output line per input line.
+
+```
+ib.enc <dest> <src> <type> <reg> <datahex>            -> ok <framehex> | exc:ValueError
+ib.dec <framehex>                                     -> ok <dest> <src> <type> <reg> <datahex> | exc:ValueError
+ib.crc <hex>                                          -> <crc>
+ib.rr  <toggle> <dest> <type> <reg> <datahex> <script>-> <res>|tg=<n>|w=<hex;hex…>|reads=<n>|buf=<hex>|left=<n>
+ib.get <toggle> <dest> <reg> <script>                 -> same, <res> = ok <datahex>
+ib.set <toggle> <dest> <reg> <datahex> <script>       -> same, <res> = ok
+   <script> = `.` (empty) or comma-separated segments, each `T` (timeout) or hex bytes that arrive
+apt.wp  <dev> <host> <id> <p1> <p2>                   -> <hex written>
+apt.wd  <dev> <host> <id> <layout> <v,v,…>            -> <hex written>
+apt.pack <layout> <v,v,…>                             -> <hex>
+apt.ask <dev> <host> <layout> <bufhex>                -> ok <v,v,…>|buf=<hex>  |  exc:<T>|buf=<hex>
+t2.reset                                              -> ok
+t2.proc <r,r,…>                                       -> c=<counter> ev=<type>:<ts>,…
+```
+-/
+open QmiModel
+
+namespace C15B
+
+def ibp : Interbus.Params := Gen.Layouts.interbus
+def t2p : T2.Params := Gen.Layouts.t2
+
+def ibExc : Interbus.Exc → String
+  | .valueError => "exc:ValueError"
+  | .timeout => "exc:QMI_TimeoutException"
+  | .instrument => "exc:QMI_InstrumentException"
+
+def aptExc : Apt.Exc → String
+  | .valueError => "exc:ValueError"
+  | .timeout => "exc:QMI_TimeoutException"
+  | .instrument => "exc:QMI_InstrumentException"
+
+def showMsg (m : Interbus.Msg) : String :=
+  s!"ok {m.dest} {m.src} {m.mtype} {m.reg} {Drv.hex m.data}"
+
+def parseSeg (s : String) : Option Interbus.Seg :=
+  if s == "T" then some .timeout else (Drv.unhex s).map .data
+
+def parseScript (s : String) : Option (List Interbus.Seg) :=
+  if s == "." then some [] else (s.splitOn ",").mapM parseSeg
+
+def showTr (tg : Nat) (t : Interbus.Tr) : String :=
+  let w := if t.written.isEmpty then "." else ";".intercalate (t.written.map Drv.hex)
+  s!"|tg={tg}|w={w}|reads={t.reads}|buf={Drv.hex t.buf}|left={t.script.length}"
+
+def parseInts (s : String) : Option (List Int) :=
+  if s == "." then some [] else (s.splitOn ",").mapM String.toInt?
+
+def parseNats (s : String) : Option (List Nat) :=
+  if s == "." then some [] else (s.splitOn ",").mapM String.toNat?
+
+def showInts (vs : List Int) : String :=
+  if vs.isEmpty then "." else ",".intercalate (vs.map toString)
+
+def findLayout (nm : String) : Option Apt.Layout :=
+  (Gen.Layouts.aptHdrParams :: Gen.Layouts.aptHdrData :: Gen.Layouts.aptPackets).find? (fun l => l.name == nm)
+
+def mkProto (dev host : Nat) : Apt.Proto :=
+  { headerSize := Gen.Layouts.aptHeaderSize, hdrParams := Gen.Layouts.aptHdrParams, hdrData := Gen.Layouts.aptHdrData,
+    dataFlag := Gen.Layouts.aptDataFlag, devAddr := dev, hostAddr := host }
+
+def showEvents (es : List T2.Event) : String :=
+  if es.isEmpty then "." else ",".intercalate (es.map fun e => s!"{e.typ}:{e.ts}")
+
+/-- state = the T2 decoder's carried overflow counter -/
+def stepLine (c : Nat) (line : String) : Nat × String :=
+  match line.splitOn " " with
+  | ["ib.enc", d, s, t, r, x] =>
+    match d.toNat?, s.toNat?, t.toNat?, r.toNat?, Drv.unhex x with
+    | some d, some s, some t, some r, some x =>
+      match Interbus.encode ibp ⟨d, s, t, r, x⟩ with
+      | .ok w => (c, s!"ok {Drv.hex w}")
+      | .error e => (c, ibExc e)
+    | _, _, _, _, _ => (c, "bad-op")
+  | ["ib.dec", x] =>
+    match Drv.unhex x with
+    | some w => match Interbus.decode ibp w with
+      | .ok m => (c, showMsg m)
+      | .error e => (c, ibExc e)
+    | none => (c, "bad-op")
+  | ["ib.crc", x] =>
+    match Drv.unhex x with
+    | some w => (c, toString (Interbus.crcOf ibp.crcPoly w))
+    | none => (c, "bad-op")
+  | ["ib.rr", tg, d, t, r, x, sc] =>
+    match tg.toNat?, d.toNat?, t.toNat?, r.toNat?, Drv.unhex x, parseScript sc with
+    | some tg, some d, some t, some r, some x, some sc =>
+      match Interbus.requestResponse ibp tg d t r x { script := sc } with
+      | (.ok m, tg', tr) => (c, showMsg m ++ showTr tg' tr)
+      | (.error e, tg', tr) => (c, ibExc e ++ showTr tg' tr)
+    | _, _, _, _, _, _ => (c, "bad-op")
+  | ["ib.get", tg, d, r, sc] =>
+    match tg.toNat?, d.toNat?, r.toNat?, parseScript sc with
+    | some tg, some d, some r, some sc =>
+      match Interbus.getRegister ibp tg d r { script := sc } with
+      | (.ok x, tg', tr) => (c, s!"ok {Drv.hex x}" ++ showTr tg' tr)
+      | (.error e, tg', tr) => (c, ibExc e ++ showTr tg' tr)
+    | _, _, _, _ => (c, "bad-op")
+  | ["ib.set", tg, d, r, x, sc] =>
+    match tg.toNat?, d.toNat?, r.toNat?, Drv.unhex x, parseScript sc with
+    | some tg, some d, some r, some x, some sc =>
+      match Interbus.setRegister ibp tg d r x { script := sc } with
+      | (.ok _, tg', tr) => (c, "ok" ++ showTr tg' tr)
+      | (.error e, tg', tr) => (c, ibExc e ++ showTr tg' tr)
+    | _, _, _, _, _ => (c, "bad-op")
+  | ["apt.wp", dev, host, id, p1, p2] =>
+    match dev.toNat?, host.toNat?, id.toInt?, p1.toInt?, p2.toInt? with
+    | some dev, some host, some id, some p1, some p2 =>
+      (c, Drv.hex (Apt.writeParam (mkProto dev host) id p1 p2))
+    | _, _, _, _, _ => (c, "bad-op")
+  | ["apt.wd", dev, host, id, nm, vs] =>
+    match dev.toNat?, host.toNat?, id.toInt?, findLayout nm, parseInts vs with
+    | some dev, some host, some id, some l, some vs =>
+      (c, Drv.hex (Apt.writeData (mkProto dev host) id (Apt.pack l.cells vs)))
+    | _, _, _, _, _ => (c, "bad-op")
+  | ["apt.pack", nm, vs] =>
+    match findLayout nm, parseInts vs with
+    | some l, some vs => (c, Drv.hex (Apt.pack l.cells vs))
+    | _, _ => (c, "bad-op")
+  | ["apt.ask", dev, host, nm, x] =>
+    match dev.toNat?, host.toNat?, findLayout nm, Drv.unhex x with
+    | some dev, some host, some l, some buf =>
+      match Apt.ask (mkProto dev host) l buf with
+      | (.ok vs, b) => (c, s!"ok {showInts vs}|buf={Drv.hex b}")
+      | (.error e, b) => (c, aptExc e ++ s!"|buf={Drv.hex b}")
+    | _, _, _, _ => (c, "bad-op")
+  | ["t2.reset"] => (0, "ok")
+  | ["t2.proc", rs] =>
+    match parseNats rs with
+    | some rs =>
+      let (c', es) := T2.process t2p c rs
+      (c', s!"c={c'} ev={showEvents es}")
+    | none => (c, "bad-op")
+  | _ => (c, "bad-op")
+
+end C15B
+
+def main : IO Unit := Drv.main' C15B.stepLine 0
